@@ -29,6 +29,7 @@ const stallDeadline = time.Second
 //	PUB <k> <seq> <chan idx> <t_inv> <t_res> <reply or -1> <payload hex>
 //	CONN <id> normal|stalled
 //	EV <id> SUB <chan idx> <t_send> <t_ack>       one SUBSCRIBE command and its confirmation
+//	EV <id> SUBM <idx,idx,...> <t_send> <t_ack>    one SUBSCRIBE command naming several channels (with repeats)
 //	EV <id> UNSUB <chan idx> <t_before> <t_after>  ChanMap.UnSubscribe (API), no reply
 //	EV <id> BARRIER <t>                            one unknown command and its error reply
 //	EV <id> DROPPED                                the server dropped the connection after a write to it timed out (stall mode only)
@@ -169,7 +170,34 @@ func concCmd(args []string) error {
 					mine[ci] = true
 					return true
 				}
+				// one SUBSCRIBE command naming several channels, the first one again at the end (a a / a b a)
+				subscribeMany := func(cis []int) bool {
+					args := [][]byte{[]byte("SUBSCRIBE")}
+					names := make([]string, 0, len(cis))
+					for _, ci := range cis {
+						args = append(args, chans[ci])
+						names = append(names, strconv.Itoa(ci))
+					}
+					ts := now()
+					if err := c.command(10*time.Second, args...); err != nil {
+						cmdFailed("SUBSCRIBE", err)
+						return false
+					}
+					emit("EV %d SUBM %s %d %d", id, strings.Join(names, ","), ts, now())
+					for _, ci := range cis {
+						mine[ci] = true
+					}
+					return true
+				}
 				ok := true
+				if r.chance(1, 3) {
+					a := r.intn(nChan)
+					if r.chance(1, 2) {
+						ok = subscribeMany([]int{a, a})
+					} else {
+						ok = subscribeMany([]int{a, r.intn(nChan), a})
+					}
+				}
 				for k := 1 + r.intn(nChan); k > 0 && ok; k-- {
 					ok = subscribe(r.intn(nChan)) // a repeated SUBSCRIBE of the same channel happens on purpose
 				}
